@@ -61,6 +61,8 @@ pub enum Mutation {
 
 #[derive(Clone, Debug, Serialize, Deserialize)]
 pub enum Gen {
+    /// literal bytes (coverage-guided fuzzing, replay of fuzzer artifacts)
+    Raw(Vec<u8>),
     Random { len: u16, seed: u64 },
     /// valid encoding of type `base` (usually the expected type), then mutations
     Valid { base: u8, seed: u64, muts: Vec<Mutation> },
@@ -358,6 +360,7 @@ fn special(val: &Special, count: u64) -> u64 {
 
 fn build_bytes(gen: &Gen, atts: &[Att]) -> Vec<u8> {
     match gen {
+        Gen::Raw(b) => b.iter().copied().take(4096).collect(),
         Gen::Random { len, seed } => {
             let mut x = Xs(*seed | 1);
             (0..(*len as usize % 4097)).map(|_| x.next() as u8).collect()
@@ -531,7 +534,7 @@ impl Prop for C16 {
     }
 }
 
-fn run_case(case: &Case) -> Result<Outcome, Failure> {
+pub fn run_case(case: &Case) -> Result<Outcome, Failure> {
     let chan = || ipc::channel::<Node>().map_err(|e| Failure::inconclusive(format!("channel: {}", e)));
     let (tx, rx) = chan()?;
     let raw_tx: IpcSender<Raw> = tx.to_opaque().to();
@@ -786,6 +789,7 @@ fn run_case(case: &Case) -> Result<Outcome, Failure> {
     let class = format!(
         "{}/{}/{}{}",
         match &case.gen {
+            Gen::Raw(_) => "raw",
             Gen::Random { .. } => "random",
             Gen::Valid { muts, .. } if muts.iter().all(|m| matches!(m, Mutation::None)) => "valid",
             Gen::Valid { .. } => "mutated",
